@@ -100,6 +100,7 @@ func TestC07E2(t *testing.T) { runE2(t, "C07") }
 func TestC08E2(t *testing.T) { runE2(t, "C08") }
 func TestC13(t *testing.T) { runE2(t, "C13") }
 
+func TestC09E2(t *testing.T)      { runE2(t, "C09") }
 func TestC13Reenter(t *testing.T) { rapid.Check(t, runC13Reenter) }
 func TestC03L(t *testing.T) { rapid.Check(t, func(rt *rapid.T) { runE2L(rt, "C03", []string{"map"}) }) }
 func TestC04L(t *testing.T) { rapid.Check(t, func(rt *rapid.T) { runE2L(rt, "C04", []string{"mapof"}) }) }
